@@ -2,8 +2,12 @@
    Model: Model/LeastSquares.v (least_squares / jacobian_fd / increase_mu / decrease_mu / Armijo search
    of python/mujoco/minimize.py, Quadratic norm, finite-difference Jacobian), with the residual
    function and the box-QP solver as universally quantified parameters.
+   The model has a switch clipcand: true = the candidate x + D*dx is clipped to the bounds before the residual
+   is evaluated (what the source does since the repair of the rounding defect; the check reads this from the
+   source and insists on it), false = the candidate is used as is (the former source).
    The premises and conclusions are the executable (boolean) definitions of the model file, so the same
-   statement is read at R (theorems) and at binary64 (C46_float_refuted).
+   statement is read at R (theorems, both values of the switch) and at binary64, where it is refuted for
+   the explicitly UNCLIPPED variant only (C46_float_unclipped_refuted).
    The clause "for linear residuals it reaches the bounded global minimum" is NOT proved. *)
 From Coq Require Import ZArith List Bool PrimFloat Reals.
 From MJV Require Import Lib.Num Lib.NumR Lib.NumF Model.LeastSquares Proof.LeastSquaresProof Proof.LeastSquaresFloat.
@@ -22,6 +26,17 @@ Theorem C46_in_bounds :
     concl_in_bounds box (least_squares res qp box Dfix adaptive clipcand eps mu_min mu_max mu_factor xtol gtol inner_fuel max_iter x0).
 Proof. exact in_bounds_R. Qed.
 Print Assumptions C46_in_bounds.
+
+(* the hard obligation for the source as it is (the check insists that the source clips the candidate): the
+   instance clipcand = true of the statement above, spelled out *)
+Theorem C46_in_bounds_clipped :
+  forall (res : list R -> list R) (qp : nat -> list (list R) -> list R -> list R -> list R -> option (list R))
+         (box : list (Bnd (T:=R))) (Dfix : list R) (adaptive : bool)
+         (eps mu_min mu_max mu_factor xtol gtol : R) (inner_fuel max_iter : nat) (x0 : list R),
+    problem_ok box Dfix eps x0 -> qp_contract qp ->
+    concl_in_bounds box (least_squares res qp box Dfix adaptive true eps mu_min mu_max mu_factor xtol gtol inner_fuel max_iter x0).
+Proof. exact in_bounds_clipped_R. Qed.
+Print Assumptions C46_in_bounds_clipped.
 
 (* over R, same hypotheses: the trace is not empty, its objectives are non-increasing, its first
    objective is the one of the clipped start, its last entry is the returned point with its objective,
@@ -47,29 +62,30 @@ Theorem C46_terminates :
 Proof. exact terminates_R. Qed.
 Print Assumptions C46_terminates.
 
-(* at binary64 the statement of C46_in_bounds is FALSE: x + D * dx with dx = (lo - x) / D >= dlower can
+(* at binary64 the statement of C46_in_bounds for the UNCLIPPED variant (clipcand = false, the former source)
+   is FALSE: x + D * dx with dx = (lo - x) / D >= dlower can
    land one ulp outside the box (witness: box [-1.3, 0.9], x0 = 0.4, r(x) = x + 5) *)
-Theorem C46_float_refuted :
+Theorem C46_float_unclipped_refuted :
   exists (res : list float -> list float) (qp : nat -> list (list float) -> list float -> list float -> list float -> option (list float))
          (box : list (Bnd (T:=float))) (Dfix : list float) (adaptive : bool)
          (eps mu_min mu_max mu_factor xtol gtol : float) (inner_fuel max_iter : nat) (x0 : list float),
     problem_ok box Dfix eps x0 /\ qp_contract qp /\
     ~ concl_in_bounds box (least_squares res qp box Dfix adaptive false eps mu_min mu_max mu_factor xtol gtol inner_fuel max_iter x0).
 Proof. exact float_refuted. Qed.
-Print Assumptions C46_float_refuted.
+Print Assumptions C46_float_unclipped_refuted.
 
 (* the witness: the candidate handed to the residual and the returned point are one ulp below -1.3 *)
-Theorem C46_float_witness_values :
+Theorem C46_float_unclipped_witness_values :
   rs_x w_result = [(-0x1.4cccccccccccep+0)%float] /\
   In [(-0x1.4cccccccccccep+0)%float] (rs_evals w_result) /\
   PrimFloat.ltb (-0x1.4cccccccccccep+0)%float (-0x1.4cccccccccccdp+0)%float = true.
 Proof. exact w_values. Qed.
-Print Assumptions C46_float_witness_values.
+Print Assumptions C46_float_unclipped_witness_values.
 
-(* the same witness with the candidate clipped to the bounds before the evaluation (the proposed repair,
-   clipcand = true), 100 iterations: every evaluation point and the returned point are inside the box *)
-Theorem C46_float_witness_repaired :
+(* the same problem in the clipped model (clipcand = true, the source), 100 iterations, at binary64: every
+   evaluation point and the returned point are inside the box *)
+Theorem C46_float_clipped_witness_in_bounds :
   concl_in_bounds w_box
     (least_squares w_res qp_lower w_box [1%float] false true w_eps w_mu_min w_mu_max w_mu_factor w_tol w_tol 200 100 w_x0).
 Proof. exact w_repaired. Qed.
-Print Assumptions C46_float_witness_repaired.
+Print Assumptions C46_float_clipped_witness_in_bounds.
